@@ -607,7 +607,8 @@ def observed_applied(ql, cls):
     return {"converted": False, "kernel": None, "bias": None, "activation": None}
   if qcls == "QActivation":
     return {"converted": True, "kernel": None, "bias": None, "activation": ql.activation}
-  k = getattr(ql, "depthwise_quantizer" if qcls == "QDepthwiseConv2D" else "kernel_quantizer", None)
+  dw = qcls in ("QDepthwiseConv2D", "QSeparableConv1D", "QSeparableConv2D")
+  k = getattr(ql, "depthwise_quantizer" if dw else "kernel_quantizer", None)
   act = ql.activation
   return {"converted": True, "kernel": k, "bias": getattr(ql, "bias_quantizer", None),
           "activation": None if (act is None or not hasattr(act, "bits")) else ("obj", str(act))}
